@@ -22,10 +22,11 @@ TARGET = os.path.join(ROOT, "target")
 ENV = dict(os.environ, CARGO_NET_OFFLINE="true", RUST_BACKTRACE="0")
 
 
-def build_libs():
+def build_libs(profile=None):
     """Build epserde (+derive), vcore and udefs from the current tree; return extern paths."""
     subprocess.run([sys.executable, os.path.join(ROOT, "gen/universe.py")], check=True, stdout=subprocess.DEVNULL)
-    p = subprocess.run(["cargo", "build", "-q", "-p", "udefs", "--message-format=json"], cwd=H, env=ENV, capture_output=True, text=True)
+    cmd = ["cargo", "build", "-q", "-p", "udefs", "--message-format=json"] + (["--profile", profile] if profile else [])
+    p = subprocess.run(cmd, cwd=H, env=ENV, capture_output=True, text=True)
     if p.returncode != 0:
         sys.stderr.write(p.stderr[-3000:])
         sys.stderr.write("\nbuilding epserde/vcore/udefs failed\n")
@@ -46,13 +47,14 @@ def build_libs():
     if not all(n in ext for n in need):
         sys.stderr.write(f"missing artifacts: {[n for n in need if n not in ext]}\n")
         return None
+    ext["__deps__"] = os.path.join(TARGET, profile or "debug", "deps")
     return ext
 
 
-def rustc_cmd(ext, src, out, extra_externs=("epserde",), cfgs=()):
-    cmd = ["rustc", "--edition=2021", "--crate-type=bin", "-C", "debuginfo=0", "-C", "opt-level=0", "-C", "debug-assertions=on",
+def rustc_cmd(ext, src, out, extra_externs=("epserde",), cfgs=(), release=False):
+    cmd = ["rustc", "--edition=2021", "--crate-type=bin", "-C", "debuginfo=0"] + (["-C", "opt-level=1", "-C", "debug-assertions=off", "-C", "overflow-checks=off"] if release else ["-C", "opt-level=0", "-C", "debug-assertions=on"]) + [
            "--cap-lints=allow", "--error-format=short", "--cfg", "epserde_verif",
-           "-L", f"dependency={TARGET}/debug/deps", "--crate-name", "probe", "-o", out, src]
+           "-L", f"dependency={ext['__deps__']}", "--crate-name", "probe", "-o", out, src]
     for e in extra_externs:
         cmd += ["--extern", f"{e}={ext[e]}"]
     for c in cfgs:
@@ -60,14 +62,14 @@ def rustc_cmd(ext, src, out, extra_externs=("epserde",), cfgs=()):
     return cmd
 
 
-def compile_probe(ext, scratch, pid, source, externs=("epserde",), run=False, timeout=120):
+def compile_probe(ext, scratch, pid, source, externs=("epserde",), run=False, timeout=120, release=False):
     """Returns dict(id, compiled, errors=[codes], stderr, ran, exit, stdout)."""
     fname = re.sub(r"[^A-Za-z0-9_]", "_", pid)
     src = os.path.join(scratch, f"{fname}.rs")
     out = os.path.join(scratch, f"{fname}.bin")
     with open(src, "w") as f:
         f.write(source)
-    p = subprocess.run(rustc_cmd(ext, src, out, externs), capture_output=True, text=True, env=ENV)
+    p = subprocess.run(rustc_cmd(ext, src, out, externs, release=release), capture_output=True, text=True, env=ENV)
     res = {"id": pid, "compiled": p.returncode == 0, "stderr": p.stderr[-4000:], "errors": sorted(set(re.findall(r"error\[(E\d+)\]", p.stderr)))}
     if p.returncode != 0 and not res["errors"]:
         # derive panics and plain errors have no code
@@ -91,12 +93,12 @@ def compile_probe(ext, scratch, pid, source, externs=("epserde",), run=False, ti
     return res
 
 
-def run_all(ext, probes, externs=("epserde",), run=False, jobs=16):
+def run_all(ext, probes, externs=("epserde",), run=False, jobs=16, release=False):
     """probes: list of (id, source). Returns list of results in the same order."""
     scratch = tempfile.mkdtemp(prefix="verif-probes-", dir="/dev/shm")
     try:
         with cf.ThreadPoolExecutor(max_workers=jobs) as ex:
-            futs = [ex.submit(compile_probe, ext, scratch, pid, src, externs, run) for pid, src in probes]
+            futs = [ex.submit(compile_probe, ext, scratch, pid, src, externs, run, 120, release) for pid, src in probes]
             return [f.result() for f in futs]
     finally:
         shutil.rmtree(scratch, ignore_errors=True)
